@@ -6,15 +6,15 @@ props = [json.loads(l) for l in open(os.path.join(V, 'properties.jsonl'))]
 
 # property -> (technique, level text, level note, design ref)
 CLAIMS = {
- 'C01': ('TLA+ spec LSProtocol (TLC exhaustive 2 instances native+shadow, simulation 3 instances/2 keys); behaviours replayed on real Syncers (SendOnce/LoadOnce on LMDB + memory bucket) with state comparison after every step and a drain-to-convergence check',
+ 'C01': ('TLA+ spec LSProtocol (TLC exhaustive 2 instances native+shadow, simulation 3 instances/2 keys); behaviours replayed on real Syncers (SendOnce/LoadOnce on LMDB + memory bucket) with state comparison after every step and a drain-to-convergence check; TLC trace validation (FleetTrace) of free-running real fleets; LSLoop behaviours replayed on the real loop with the publish monitor',
          'TLC checks Converged (under Quiescent), NoInvention and LSNeverBackwards on LSProtocol; every simulated behaviour is stepped through real Syncer objects and the projected LMDB content of every instance must equal the specification state after every step; a drain phase then checks identity of all instances and equality with an independent LWW reference.',
          'Bounded: 2 instances/1 key exhaustively, 3 instances/2 keys by simulation; values and timestamps abstracted to small ordered classes, concretised three ways (bytes within a class sampled); shadow-mode stamps compared up to order-isomorphism; sweeper disabled.',
          'DESIGN.md section 5 C01'),
- 'C02': ('TLA+ spec LSData/MergeLaws checked exhaustively by TLC; TLC-evaluated function tables and all pair/triple orders replayed on the real NativeIterator and strategy.Update on LMDB',
+ 'C02': ('TLA+ spec LSData/MergeLaws checked exhaustively by TLC; TLC-evaluated function tables and all pair/triple orders replayed on the real NativeIterator and strategy.Update on LMDB; the remote-merge rows also through the real LoadOnce',
          'TLC checks the per-key register invariant (stored = LWW winner of everything merged), the never-backwards action property and the algebraic laws over the whole finite domain; every row of the TLC-evaluated Merge/Clean tables is then executed on the real code under three byte-level concretisations, and every pair and triple of versions is merged in every order on a real LMDB and compared with the winner given by the specification order.',
          'Abstract domains: 3-4 ordered value classes, timestamps 0..3(4), formats 1..3, cut-offs {0,2,4}; bytes within a class are sampled. Order laws are claimed for cutoff 0 (stale-marker drop is order sensitive by design, DESIGN.md section 7).',
          'DESIGN.md section 5 C02'),
- 'C03': ('TLA+ spec LSLoop (sync loop between yield points with LMDB transaction ids); TLC exhaustive + simulation; behaviours replayed by stepping the real syncLoop goroutine through verif yield hooks with application commits placed exactly at the prescribed points',
+ 'C03': ('TLA+ spec LSLoop (sync loop between yield points with LMDB transaction ids); TLC exhaustive + simulation; behaviours replayed by stepping the real syncLoop goroutine through verif yield hooks with application commits placed exactly at the prescribed points; option receive-only modelled and replayed',
          'TLC checks NoLocalLoss and LSNeverBackwards for every placement of application commits relative to the steps of syncLoop/LoadOnce/SendOnce; the real loop is stepped from yield point to yield point, LMDB content, LastTxnID and the loop\'s transaction-id variables are compared with the specification after every step and NoLocalLoss is evaluated on the real application DBI. The empty-transaction window is a named deviation of the model; its TLC counterexample is replayed on the real code and reported as a known finding.',
          'One instance + environment, one key, <=2 application commits, <=2 remote snapshots, <=1 crash per behaviour (quick); LMDB transaction-id facts assumed as measured on the real library; yield points are outside LMDB transactions.',
          'DESIGN.md section 5 C03'),
@@ -22,7 +22,7 @@ CLAIMS = {
          'TLC checks LSNeverBackwards, MergeDominates and NoBounce (with and without a stale-marker cut-off) and the arithmetic RDMC <= RD; protocol behaviours with deletions are replayed on real Syncers where after every merge the real store must dominate every version of the merged snapshot, and every snapshot must carry every marker; the retention table and 20 000 seeded sweeper configurations are evaluated on the real config methods.',
          'Bounded as C01; real durations compared with the integer model within 1 s / 1e-6 because RetentionDays is a float32; retention_days >= 0.',
          'DESIGN.md section 5 C04'),
- 'C05': ('TLA+ spec LSLoop with crash/restart (LMDB kept or emptied), Store faults and own-snapshot delivery; behaviours replayed on the real stepped loop with a fault-injecting bucket; every stored blob decoded',
+ 'C05': ('TLA+ spec LSLoop with crash/restart (LMDB kept or emptied), Store faults and own-snapshot delivery; behaviours replayed on the real stepped loop with a fault-injecting bucket; every stored blob decoded; start-up with another instance\'s snapshot in the bucket and the start tracker flags compared after every step',
          'TLC checks NoUploadBeforeOwnMerged and BucketMonotone over crashes at every yield point, restarts with kept or emptied LMDB and Store failures within and beyond the retry budget; the same behaviours are replayed on the real loop (goroutine unwound at the yield point = crash), each stored blob is decoded and compared with the previous newest one and the own-snapshot guard is evaluated on the real run.',
          'One instance + environment at loop level; the interaction with cleaners of other instances is decided by the Cleaner model of C12 (separate check); application writes monotone per key.',
          'DESIGN.md section 5 C05'),
@@ -42,11 +42,11 @@ CLAIMS = {
          'TLC checks PublishedWhenIdle for every placement of application commits and every number of failing Store calls up to the retry budget; on the real loop the newest own blob is decoded at every idle point and must cover every application commit the harness made up to the LastTxnID the loop read. The empty-transaction window counterexample is replayed on the real code and reported as a known finding.',
          'Bounds as C03; "idle" = the loop reached its sleep and is not waiting for its own old snapshot (DESIGN.md section 7).',
          'DESIGN.md section 5 C09'),
- 'C10': ('TLA+ specs LSProtocol (changed flags, pendingLocal) and LSLoop (NoEchoUpload); behaviours replayed on real Syncers/real loop with LastTxnID observed around every LS step, with and without header padding',
+ 'C10': ('TLA+ specs LSProtocol (changed flags, pendingLocal) and LSLoop (NoEchoUpload); behaviours replayed on real Syncers/real loop with LastTxnID observed around every LS step, with and without header padding, with the dupsort_hack option on plain DBIs, and with the forced-snapshot interval as an environment step (ForcedWhenDue)',
          'On the real code a LoadOnce that the specification flags as changing nothing must not record an LMDB transaction, SendOnce records one only when it captured something (shadow), and the real loop decides to upload only after an application commit or at start-up (TLC action property NoEchoUpload, also evaluated by the harness on the real run).',
          'Dupsort-hack DBIs excluded from the no-commit clause; creating a missing DBI is a legitimate commit; forced-interval snapshots not modelled (timer).',
          'DESIGN.md section 5 C10'),
- 'C11': ('TLA+ specs LSData (MainToShadow/ShadowToMain) and LSProtocol shadow mode (MirrorFaithful, CaptureFaithful); TLC on the design and on the code-as-is model; behaviours and the TLC counterexample replayed on real Syncers',
+ 'C11': ('TLA+ specs LSData (MainToShadow/ShadowToMain) and LSProtocol shadow mode (MirrorFaithful, CaptureFaithful); TLC on the design and on the code-as-is model; behaviours and the TLC counterexample replayed on real Syncers; LSLoop receive-only behaviours replayed on the real loop',
          'TLC shows the design satisfies MirrorFaithful/CaptureFaithful and that the model of the code as it is violates MirrorFaithful for empty values; shadow-mode behaviours are replayed on real Syncers under 3 value and 7 key concretisations (NUL/0xff/511-byte keys, MDB_INTEGERKEY with key 0) comparing the application DBI with the live projection of the real shadow DBI; the counterexample is reproduced on the real code and reported as known finding F3.',
          'Steady state only; stamps up to order-isomorphism; inputs that crash lmdb-go RawRead (empty value behind an even-length key at the end of the last page) are excluded from replays and recorded as finding F10.',
          'DESIGN.md section 5 C11'),
@@ -66,7 +66,7 @@ CLAIMS = {
          'TLC checks round trip, sanitised-name safety, cross-database prefix and exact re-build over all structured names of <=5 parts; every row is concretised (letters/digits, NUL, invalid UTF-8, multi-byte runes, timestamps 1970..2262) and must parse/re-build exactly as specified; 3000 seeded timestamps in UTC and two fixed zones must round-trip and sort byte-wise in chronological order.',
          'Breadth over real strings and timestamps comes from seeded sampling inside the abstract classes.',
          'DESIGN.md section 5 C15'),
- 'C16': ('TLA+ spec Receiver (listing loop, downloaders, token pools, consumer) checked by TLC incl. liveness under fairness; TLC trace validation (ReceiverTrace) of recorded runs of the real Receiver with real goroutines; free-running delivery and run-once scenarios',
+ 'C16': ('TLA+ spec Receiver (listing loop, downloaders, token pools, consumer) checked by TLC incl. liveness under fairness; TLC trace validation (ReceiverTrace) of recorded runs of the real Receiver with real goroutines; free-running delivery and run-once scenarios; LSLoop with only_once (Exit, ExitOnlyWhenDone) replayed on the real loop',
          'TLC checks TokensAccounted, IgnoredForGood, DeliversDecodable and the liveness property Delivered; the real Receiver is driven by seeded random external actions behind a gated bucket, its observable state is recorded after every action and every recorded trace must be a behaviour of the specification (silent downloader steps), with the invariants evaluated on it; run-once mode must end only after every instance present at start-up was merged.',
          'Observation after the goroutines settled (9 ms stable); 3 instances, limits 1/2 in validation; fault counts bounded in the liveness model.',
          'DESIGN.md section 5 C16'),
@@ -74,11 +74,11 @@ CLAIMS = {
          'Every pair of the pools and every ordered two-pair content is run through the real EncodeOne/DecodeOne/Encode/Decode (verif wrappers) and must be accepted or refused exactly as specified with strictly increasing, decodable keys; sampled contents go through SendOnce, a fresh shadow receiver, re-merge of the own snapshot, a remote deletion and a native receiver (which must refuse).',
          'Pools of 9 key and 14 value shapes built from bytes {0,1,7,255}; empty-value duplicates are subject to the known finding F3.',
          'DESIGN.md section 5 C20'),
- 'C17': ('TLA+ spec Topic (mutex, rendezvous/buffered channels, Close at any moment) checked by TLC; every call-start sequence of the complete state graph executed on the real Topic with goroutine-status observation; climit schedules, global-storage orders in fresh processes, cancelled real fleets; Go race detector for the data-race clause',
+ 'C17': ('TLA+ spec Topic (mutex, rendezvous/buffered channels, Close at any moment) checked by TLC; every call-start sequence of the complete state graph executed on the real Topic with goroutine-status observation; climit schedules, global-storage orders in fresh processes, cancelled real fleets; Go race detector for the data-race clause (Topic.Handle with failing callbacks and cancelled contexts included)',
          'TLC checks CloseNeverWedges and MutexSane (and shows the plain blocking send wedges); all 306 (thorough: 7120 with 3 subscribers) maximal sequences of call starts are run on the real Topic and the settled set of calls in progress, Next results and received counts must match a settled state the specification allows; token counts of the real climit are compared with the model over seeded multi-goroutine release schedules; every order of SetGlobal/GetGlobal runs in a fresh process; real fleets with all background goroutines are cancelled and must leave nothing parked (a downloader parked in Acquire is a known finding).',
          'Data races are decided by the Go race detector on these drivers, not by TLC; goroutine status is observed after it settled.',
          'DESIGN.md section 5 C17'),
- 'C18': ('TLA+ spec LoadAtomic (LoadOnce transaction step by step with failures and a reader; gate table); gate rows as real snapshots through LoadOnce with byte-exact dumps; failure injection (malformed entry, counting-context cancellation, full map) and concurrent reader',
+ 'C18': ('TLA+ spec LoadAtomic (LoadOnce transaction step by step with failures and a reader; gate table); gate rows as real snapshots through LoadOnce with byte-exact dumps; failure injection (malformed entry, counting-context cancellation, full map) and concurrent reader; Merge-table rows (format versions 1..3) through the real LoadOnce',
          'TLC checks ReadersSeeWhole, AbortRestores, SuccessMerges and tabulates the gates over format 0..4 x compat 0..4 x transform x dupsort flag x mode x DBI exists x private; all 1200 rows run on the real LoadOnce (refused => LMDB byte-identical incl. LastTxnID; merged => content incl. version-1 empty value = deletion; private DBIs ignored; unreadable versions refused whatever the snapshot contains); failures are injected in every DBI at every entry, at every cancellation check and at successive map sizes; three reader goroutines compare a generation key across DBIs during 30 merges.',
          'LMDB MVCC isolation is exercised, not verified; shadow rows run with dupsort_hack enabled.',
          'DESIGN.md section 5 C18'),
